@@ -173,6 +173,35 @@ brk('C20', 'R20.3', 'pyiga/compile.py', 'pyiga.compile._compile_cython_module_no
 twin('C20', 'pyiga/compile.py', 'pyiga.compile._compile_cython_module_nocache', r"os\.replace\(built,", 'os.rename(built,', 'os.rename')
 
 
+# ---- more refactor twins (behaviour-preserving rewrites of constructs that carry definite checks)
+twin('C02', 'pyiga/bspline.py', 'pyiga.bspline.KnotVector.first_active', r"return k - self\.p", 'return -self.p + k', 'commuted difference')
+twin('C03', 'pyiga/_hdiscr.py', 'pyiga._hdiscr.HDiscretization.assemble_matrix', r"return \(T\.T @ A_hb @ T\)\.tocsr\(\)", 'return T.T.dot(A_hb).dot(T).tocsr()', 'dot() chain instead of @')
+twin('C04', 'pyiga/hierarchical.py', 'pyiga.hierarchical.HSpace._cell_neighborhood', r"if l - self\.disparity < 0:", 'if l < self.disparity:', 'equivalent guard')
+twin('C07', 'pyiga/geometry.py', 'pyiga.geometry.circular_arc_5pt', r"w = np\.cos\(alpha / 4\)", 'w = np.cos(0.25 * alpha)', 'same angle written as a product')
+twin('C07', 'pyiga/geometry.py', 'pyiga.geometry._BoundaryFunction.eval', r"x\.insert\(len\(x\) - self\.axis, self\.fixed_coord\)", 'x.insert(-self.axis + len(x), self.fixed_coord)', 'commuted position')
+twin('C09', 'pyiga/assemble.py', 'pyiga.assemble.bsp_stiffness_2d', r"scipy\.sparse\.kron\(K1, M2, format=format\) \+ scipy\.sparse\.kron\(M1, K2, format=format\)", 'scipy.sparse.kron(M1, K2, format=format) + scipy.sparse.kron(K1, M2, format=format)', 'terms of the Kronecker sum commuted')
+twin('C09', 'pyiga/assemble.py', 'pyiga.assemble.bsp_mixed_deriv_biform_1d', r"\(2 \* knotvec\.p - du - dv \+ 1\) / 2\.0", '(knotvec.p - du + knotvec.p - dv + 1) / 2.0', 'degree written as a sum')
+twin('C10', 'pyiga/assemble.py', 'pyiga.assemble.compute_dirichlet_bcs', r"for bd in \(0,1\)\]", 'for bd in (1, 0)]', 'sides enumerated in the other order')
+twin('C10', 'pyiga/assemble.py', 'pyiga.assemble.combine_bcs', r"return uidx, values\[lookup\]", 'vals = values[lookup]\n    return uidx, vals', 'values through a local')
+twin('C11', 'pyiga/relaxation_cy.pyx', None, r"I0,I1,Is = indices\.shape\[0\] - 1, -1, -1", 'I0,I1,Is = -1 + indices.shape[0], -1, -1', 'commuted bound')
+twin('C11', 'pyiga/solvers.py', 'pyiga.solvers.iterative_solve', r"return x, np\.inf", "return x, float('inf')", 'float(inf)')
+twin('C12', 'pyiga/solvers.py', 'pyiga.solvers._adaptive_step_method.<locals>._method', r"if r <= 1:", 'if r <= 1.0:', 'float literal')
+twin('C15', 'pyiga/mlmatrix.py', 'pyiga.mlmatrix.MLStructure.sequential_bidx', r"self\.bs\[j\]\[1\] \* self\.bidx\[j\]\[:,0\] \+ self\.bidx\[j\]\[:,1\]", 'self.bidx[j][:,1] + self.bidx[j][:,0] * self.bs[j][1]', 'commuted ravel')
+twin('C17', 'pyiga/approx.py', 'pyiga.approx.project_L2', r"assemble\.inner_products\(kvs, f, f_physical=f_physical, geo=geo\)", 'assemble.inner_products(kvs, f, geo=geo, f_physical=f_physical)', 'keyword order')
+twin('C19', 'pyiga/spline.py', 'pyiga.spline.Spline.derivative', r"self\.kv\.kv\[p\+1:-1\]", 'self.kv.kv[1+p:-1]', 'commuted slice bound')
+twin('C16', 'pyiga/tensor.py', 'pyiga.tensor.modek_tprod', r"return np\.rollaxis\(Y, -1, k\)", 'return np.moveaxis(Y, -1, k)', 'moveaxis instead of rollaxis for the dense branch')
+twin('C06', 'pyiga/vform.py', 'pyiga.vform.ScalarOperExpr.fold_constants', r"if self\.x\.is_zero\(\):            # 0 \+ y  -->  y\n(\s*)return self\.y\n(\s*)if self\.y\.is_zero\(\):            # x \+ 0  -->  x\n(\s*)return self\.x",
+     r"if self.y.is_zero():            # x + 0  -->  x\n\1return self.x\n\2if self.x.is_zero():            # 0 + y  -->  y\n\3return self.y", 'two folding rules swapped')
+twin('C08', 'pyiga/assemble.py', 'pyiga.assemble.assemble_entries_vec', r"        if format == 'mlb':\n            return X\n        else:\n            return X\.asmatrix\(format\)", "        return X if format == 'mlb' else X.asmatrix(format)", 'conditional expression return')
+twin('C18', 'pyiga/tensor.py', 'pyiga.tensor.grou', r"if err < tol:\n(\s*)break", r"if tol > err:\n\1break", 'comparison flipped')
+twin('C13', 'pyiga/compile.py', 'pyiga.compile.compile_vform', r"cache_key = \(vf\.hash\(\), __asm_cache_args\(on_demand\)\)", 'key_args = __asm_cache_args(on_demand)\n    cache_key = (vf.hash(), key_args)', 'key arguments through a local')
+twin('C14', 'pyiga/assemble.py', 'pyiga.assemble.Multipatch.join_dofs', r"if sd1 is not None and sd2 is not None:", 'if sd2 is not None and sd1 is not None:', 'conjuncts swapped')
+twin('C20', 'pyiga/compile.py', 'pyiga.compile._compile_cython_module_nocache', r"builddir = tempfile\.mkdtemp\(prefix=modname \+ '-build-', dir=MODDIR\)", "builddir = tempfile.mkdtemp(dir=MODDIR, prefix='build-' + modname)", 'mkdtemp arguments rearranged')
+twin('C01', 'pyiga/codegen/cython.py', 'pyiga.codegen.cython.AsmGenerator.gen_pderiv', r"nderiv = self\.numderiv\+1,", 'nderiv = 1 + self.numderiv,', 'commuted stride')
+twin('C05', 'pyiga/hierarchical.py', 'pyiga.hierarchical.HSplineFunc.grid_jacobian', r"return sum\(f\.grid_jacobian\(gridaxes\)\n\s*for f in self\.hs\.coeffs_to_levelwise_funcs\(self\.coeffs, truncate=self\.truncate\)\)",
+     'funcs = self.hs.coeffs_to_levelwise_funcs(self.coeffs, truncate=self.truncate)\n        return sum(f.grid_jacobian(gridaxes) for f in funcs)', 'level-wise functions through a local')
+
+
 def recipes_for(prop):
     return [r for r in R if r['prop'] == prop]
 
